@@ -51,6 +51,9 @@ type params struct {
 	// Repair: after an injected fault was reported the damage is removed and the
 	// same arguments are loaded again in the same process: the load must succeed
 	Repair bool `json:"repair,omitempty"`
+	// Again: the faulty tree is loaded a second time before any repair: the
+	// fault must be reported every time, not only the first
+	Again bool `json:"load_again,omitempty"`
 }
 
 var noiseKinds = []string{"ext_test", "in_test", "ignore_main", "os_variant", "underscore_garbage", "dot_garbage", "testdata_garbage", "nested_module", "hidden_dir"}
@@ -194,6 +197,7 @@ func (c17) Generate(env *kernel.Env, r *kernel.Rand, index int) any {
 		p.Fault = kernel.Pick(r, faults)
 		p.FaultA = r.Intn(64)
 		p.Repair = r.Chance(1, 2)
+		p.Again = r.Chance(1, 2)
 	} else if r.Chance(1, 3) {
 		p.Second = kernel.Pick(r, []string{"type_error_root", "syntax_error_root", "missing", "type_error_import"})
 		p.FaultA = r.Intn(64)
@@ -539,6 +543,24 @@ func (c17) Execute(env *kernel.Env, raw json.RawMessage, ch *kernel.Choices) *ke
 		}
 		out.Probe("fault_reported_as_error")
 		out.Keys = append(out.Keys, shape(&p)+"|"+fault)
+		if p.Again && !onlyNoPanic[fault] {
+			if fault == "go_unavailable" {
+				os.Setenv("PATH", filepath.Join(base, "emptybin"))
+			}
+			must(os.Chdir(cwd))
+			panicked, err = nil, nil
+			pkgPaths, goFiles = nil, nil
+			load()
+			os.Chdir(oldwd)
+			os.Setenv("PATH", savedPath)
+			if panicked != nil {
+				return viol("load_panics", "second load, fault="+fault, "the second LoadSources on the same faulty tree panicked: %v", panicked)
+			}
+			if err == nil {
+				return viol("environment_fault_not_reported", "second load, fault="+fault, "fault %q was reported by the first LoadSources, but a second call with the same arguments on the unchanged tree, in the same process, returned no error", fault)
+			}
+			out.Probe("fault_reported_again")
+		}
 		if !(p.Repair && repairable[fault]) {
 			return out
 		}
@@ -737,6 +759,11 @@ func (c17) Shrink(raw json.RawMessage) []json.RawMessage {
 	if p.Repair {
 		q := p
 		q.Repair = false
+		out = append(out, kernel.MustJSON(q))
+	}
+	if p.Again {
+		q := p
+		q.Again = false
 		out = append(out, kernel.MustJSON(q))
 	}
 	if p.Outer != "" {
